@@ -784,7 +784,7 @@ fn get_where_filters(params: &EntityParams, prepared_query: &mut SingleQuery, t:
         }
     }
     if !params.json_filters.is_empty() {
-        q.push_str("AND ");
+        q.push_str(" AND ");
         q.push('\n');
         tab(&mut q, t);
         let it = &mut params.json_filters.iter().peekable();
